@@ -137,6 +137,75 @@ func (x *World) gmapFor(op Op) gmap {
 	return newGMap(op.Ar, x.w)
 }
 
+// Family B: MapN over the static types 0, 1, 3 .. 11, 13 in this order - none of them is a relation. A relation type the
+// map does NOT own (2 or 12) can then be configured, so Remove / RemoveBatch / Add with a target are ACCEPTED calls for
+// every arity (family A owns relation 2 from arity 3 on: there a target given to Remove is always rejected).
+type gmapB interface {
+	Add(e ecs.Entity, target ...ecs.Entity)
+	Remove(e ecs.Entity, target ...ecs.Entity)
+	RemoveBatch(f ecs.Filter, target ...ecs.Entity) int
+}
+
+var famB = []int{0, 1, 3, 4, 5, 6, 7, 8, 9, 10, 11, lateComp}
+
+func shiftIDs(n int) []int { return append([]int{}, famB[:n]...) }
+
+func newGMapB(n int, w *ecs.World, rel ...generic.Comp) gmapB {
+	switch n {
+	case 1:
+		m := generic.NewMap1[gc0](w, rel...)
+		return &m
+	case 2:
+		m := generic.NewMap2[gc0, gc1](w, rel...)
+		return &m
+	case 3:
+		m := generic.NewMap3[gc0, gc1, gc3](w, rel...)
+		return &m
+	case 4:
+		m := generic.NewMap4[gc0, gc1, gc3, gc4](w, rel...)
+		return &m
+	case 5:
+		m := generic.NewMap5[gc0, gc1, gc3, gc4, gc5](w, rel...)
+		return &m
+	case 6:
+		m := generic.NewMap6[gc0, gc1, gc3, gc4, gc5, gc6](w, rel...)
+		return &m
+	case 7:
+		m := generic.NewMap7[gc0, gc1, gc3, gc4, gc5, gc6, gc7](w, rel...)
+		return &m
+	case 8:
+		m := generic.NewMap8[gc0, gc1, gc3, gc4, gc5, gc6, gc7, gc8](w, rel...)
+		return &m
+	case 9:
+		m := generic.NewMap9[gc0, gc1, gc3, gc4, gc5, gc6, gc7, gc8, gc9](w, rel...)
+		return &m
+	case 10:
+		m := generic.NewMap10[gc0, gc1, gc3, gc4, gc5, gc6, gc7, gc8, gc9, gc10](w, rel...)
+		return &m
+	case 11:
+		m := generic.NewMap11[gc0, gc1, gc3, gc4, gc5, gc6, gc7, gc8, gc9, gc10, gc11](w, rel...)
+		return &m
+	case 12:
+		m := generic.NewMap12[gc0, gc1, gc3, gc4, gc5, gc6, gc7, gc8, gc9, gc10, gc11, gc13](w, rel...)
+		return &m
+	}
+	panic("verif: bad arity for map family B")
+}
+
+func (x *World) gmapBFor(op Op) gmapB {
+	if op.Ar == 12 && !x.lateDone && !x.w.IsLocked() {
+		// arity 12 needs the late type: make it known the way an ID-based operation would
+		if id := ecs.ComponentID[gc13](x.w); idNum(id) != lateComp {
+			panic("verif: late generic component type did not get id 13")
+		}
+		x.lateDone = true
+	}
+	if op.HasRel {
+		return newGMapB(op.Ar, x.w, gcComps[op.Rel])
+	}
+	return newGMapB(op.Ar, x.w)
+}
+
 func (x *World) gexchangeFor(op Op) *generic.Exchange {
 	ex := generic.NewExchange(x.w)
 	// every third operation re-configures a long-lived Exchange object instead of building a fresh one:
@@ -281,6 +350,10 @@ func (x *World) execGeneric(op Op, line map[string]interface{}, args map[string]
 			add, rem = seqIDs(op.Ar), nil
 		case "generic.Map.Remove":
 			add, rem = nil, seqIDs(op.Ar)
+		case "generic.MapB.Add":
+			add, rem = shiftIDs(op.Ar), nil
+		case "generic.MapB.Remove":
+			add, rem = nil, shiftIDs(op.Ar)
 		}
 		args["e"] = ent(e)
 		args["add"] = nonNil(add)
@@ -295,6 +368,10 @@ func (x *World) execGeneric(op Op, line map[string]interface{}, args map[string]
 				x.gmapFor(op).Add(e, ta...)
 			case "generic.Map.Remove":
 				x.gmapFor(op).Remove(e, ta...)
+			case "generic.MapB.Add":
+				x.gmapBFor(op).Add(e, ta...)
+			case "generic.MapB.Remove":
+				x.gmapBFor(op).Remove(e, ta...)
 			case "generic.Exchange.Add":
 				x.gexchangeFor(op).Add(e, ta...)
 			case "generic.Exchange.Remove":
@@ -363,6 +440,8 @@ func (x *World) execGeneric(op Op, line map[string]interface{}, args map[string]
 			add, rem = seqIDs(op.Ar), nil
 		case "generic.Map.RemoveBatch", "generic.Map.RemoveBatchQ":
 			add, rem = nil, seqIDs(op.Ar)
+		case "generic.MapB.RemoveBatch":
+			add, rem = nil, shiftIDs(op.Ar)
 		}
 		f, fd := x.buildFilter(op.F)
 		args["f"] = fd
@@ -384,6 +463,8 @@ func (x *World) execGeneric(op Op, line map[string]interface{}, args map[string]
 				r.ret = x.gmapFor(op).RemoveBatch(f, ta...)
 			case "generic.Map.RemoveBatchQ":
 				heldQ(r, x.gmapFor(op).RemoveBatchQ(f, ta...))
+			case "generic.MapB.RemoveBatch":
+				r.ret = x.gmapBFor(op).RemoveBatch(f, ta...)
 			default:
 				r.ret = x.gexchangeFor(op).ExchangeBatch(f, ta...)
 			}
